@@ -264,10 +264,34 @@ func newWitnessTolerated(f *Func, s Site) string {
 	if calleeIs(f, s, Callee{"crypto/rand", "", "Read"}) {
 		return "crypto/rand.Read is documented never to return an error (it aborts the program instead)"
 	}
-	if calleeIs(f, s, specLockFet) {
+	if calleeIs(f, s, specLockFet) && classifiedNotFound(f, s) {
 		return "a missing configuration record is the first-start case (ErrLogNotFound), handled by creating it"
 	}
 	return ""
+}
+
+// classifiedNotFound: the error of the call at s is tested with
+// errors.Is(err, ErrLogNotFound) before it is overwritten.
+func classifiedNotFound(f *Func, s Site) bool {
+	info := f.Info()
+	obj, ok := resultVar(s, isErrorType)
+	if !ok {
+		return false
+	}
+	found := false
+	f.Graph().ReachAll(s.After(), Cut{Stop: func(_ Point, n ast.Node) bool { return n != nil && assignsTo(info, n, obj) }}, func(p Point, n ast.Node) bool {
+		if n != nil && Cond(p.B) == n {
+			ast.Inspect(n, func(x ast.Node) bool {
+				if call, ok := x.(*ast.CallExpr); ok && matchCallee(info, call, Callee{"errors", "", "Is"}) && len(call.Args) == 2 &&
+					objOf(info, call.Args[0]) == obj && isPkgVar(info, call.Args[1], pkgCtlog, "ErrLogNotFound") {
+					found = true
+				}
+				return true
+			})
+		}
+		return false
+	})
+	return found
 }
 
 func cacheGetTolerated(f *Func, s Site) string {
